@@ -202,6 +202,41 @@ def oracle(ctx):
                 ctx.violation("representation", {"utc": t.isoformat(), "repr": str(type(val)) + str(getattr(val, "dtype", ""))},
                               float(got), ref, site="astronomy.jdays")
     ctx.note("worst |jdays - civil JD| = %.3g d; worst |gmst - IAU82| = %.3g rad" % (worst_jd, worst_g))
+    # arrays of instants that are advanced IN PLACE between calls: every call answers for the instants the array holds now
+    for t in inst[:ctx.size(60, 600)]:
+        ctx.bump("inplace_probe", inplace_probe(ctx, t, ctx.rng.choice([86400.0, 3600.0, 0.25, 366 * 86400.0])))
+
+
+def inplace_probe(ctx, t, step_s):
+    from pyorbital import astronomy
+    us = us_of(t)
+    unit = "us" if (step_s * 1e6) % 1000 else "ns"
+    arr = np.array([np.datetime64(us, "us"), np.datetime64(us + 12345678, "us")]).astype("datetime64[%s]" % unit)
+    step = np.timedelta64(int(round(step_s * 1e6)), "us")
+    for rnd in range(3):
+        got = {"jdays": np.array(astronomy.jdays(arr), dtype=float), "jdays2000": np.array(astronomy.jdays2000(arr), dtype=float),
+               "gmst": np.array(astronomy.gmst(arr), dtype=float)}
+        for i in range(len(arr)):
+            ctx.count("eval_oracle_inplace")
+            ti = arr[i].astype("datetime64[us]").astype(object)
+            ex = exact_jd(ti)
+            ref_g = iau82_gmst(ex)
+            dg = abs(decimal.Decimal(float(got["gmst"][i])) - ref_g)
+            dg = min(dg, TWO_PI_DEC - dg)
+            bad = None
+            if abs(Fraction(float(got["jdays"][i])) - ex) > Fraction(1, 10 ** 9):
+                bad = ("jdays", float(got["jdays"][i]), float(ex))
+            elif abs(Fraction(float(got["jdays2000"][i])) - (ex - 2451545)) > Fraction(1, 10 ** 9):
+                bad = ("jdays2000", float(got["jdays2000"][i]), float(ex - 2451545))
+            elif dg > decimal.Decimal("1e-7"):
+                bad = ("gmst", float(got["gmst"][i]), float(ref_g))
+            if bad:
+                ctx.violation("stale_after_inplace_update", {"utc": t.isoformat(), "step_s": step_s, "round": rnd, "index": i,
+                                                            "function": bad[0]}, bad[1],
+                              "%s of the instant the array holds now (%s): %r" % (bad[0], ti.isoformat(), bad[2]), site="astronomy." + bad[0])
+                return "violated"
+        arr += step
+    return "ok"
 
 
 def match_known(entry, v):
@@ -211,6 +246,10 @@ def match_known(entry, v):
 def replay(ctx, case):
     from pyorbital import astronomy
     inp = case.get("input", case)
+    if "step_s" in inp:
+        r = inplace_probe(ctx, dt.datetime.fromisoformat(inp["utc"]), inp["step_s"])
+        print("in-place probe:", r)
+        return 1 if r == "violated" else 0
     t = dt.datetime.fromisoformat(inp.get("utc") or inp.get("b"))
     jd = float(astronomy.jdays(t))
     ex = exact_jd(t)
